@@ -324,7 +324,7 @@ pub fn run(args: &Args) -> i32 {
     let mut idx = 0u64;
     // ---- reader subjects: the valid seed corpus (big canned file only in thorough)
     let seeds = corpus(args.seed, args.thorough());
-    let max_files = if args.thorough() { seeds.len() } else { 30 };
+    let max_files = seeds.len();
     for (si, s) in seeds.iter().enumerate().take(max_files) {
         let sub = ReaderSubject { name: &s.name, bytes: Rc::new(s.bytes.clone()), init: s.init.as_ref().map(|i| Rc::new(i.clone())) };
         reader_subject(&sub, si, args, &mut rep, &mut idx);
@@ -333,8 +333,29 @@ pub fn run(args: &Args) -> i32 {
             return rep.finish();
         }
     }
+    // ---- reader subjects, generated: plain movies (several tracks, interleaved chunks, every
+    // table form) and self-contained fragmented movies
+    let ng = args.scale(800, 16_000);
+    for g in 0..ng {
+        let mut rng = Rng::derive(args.seed, 0x10C, g);
+        let (bytes, name) = if g % 2 == 0 {
+            let m = crate::model::gen_movie(&mut rng, 3, 10, 24);
+            let fl = crate::model::gen_file_layout(&mut rng, &m);
+            (crate::model::build_plain(&m, &fl, &|_| {}).ser.bytes, format!("generated movie {}", g))
+        } else {
+            let same_trex = rng.bool();
+            let fm = crate::model::gen_frag_movie(&mut rng, 3, 2, 3, same_trex);
+            (crate::model::build_fragmented(&fm).whole.bytes, format!("generated fragmented movie {}", g))
+        };
+        let sub = ReaderSubject { name: &name, bytes: Rc::new(bytes), init: None };
+        reader_subject(&sub, 1000 + g as usize, args, &mut rep, &mut idx);
+        if rep.too_many_fails() {
+            return rep.finish();
+        }
+    }
+    rep.add("generated_reader_subjects", if args.shard == 0 { ng } else { 0 });
     // ---- writer subjects
-    let nh = args.scale(320, 6400);
+    let nh = args.scale(4_000, 60_000);
     for hi in 0..nh as usize {
         let mut rng = Rng::derive(args.seed, 0xC10, hi as u64);
         let (mt, ms, mz) = if hi % 5 == 0 { (3, 40, 200) } else { (2, 8, 40) };
